@@ -63,4 +63,5 @@ PROP = {'gen': ['base64'],
                  'and compared with the crate on every image of every case',
                  'fewer than 2^32-1 image ids in use (with every id taken the allocation loop of the handler would not terminate)',
                  'images are well formed (their shape is a window of the backing vector, as produced by Image::new/from/crop)',
-                 'writes to the output never fail']}
+                 'the theorems assume that writes to the output do not fail; a sink that fails during draw is covered by the '
+                 'correspondence run and a per-case terminal-side predicate (CaseFail), erase/handle always get a working sink']}
